@@ -170,6 +170,8 @@ func c18Gen(r *rand.Rand, tier string, idx int) []string {
 	return ops
 }
 
+var c18Stalls int32
+
 func c18ParseRes(ws []string) []int {
 	var r []int
 	for _, w := range ws {
@@ -323,11 +325,18 @@ func c18Exec(ops []string) vResult {
 						fin <- conn.writev(slices...)
 					}
 				}()
+				// (once a few writers were found asleep in this process the watchdog stops being generous: a broken wake-up
+				// makes every such case wait, and the search should not take hours)
+				patience := 3 * time.Second
+				if atomic.LoadInt32(&c18Stalls) >= 3 {
+					patience = 150 * time.Millisecond
+				}
 				select {
 				case err = <-fin:
-				case <-time.After(3 * time.Second):
+				case <-time.After(patience):
+					atomic.AddInt32(&c18Stalls, 1)
 					// S (C18): a writer that met EAGAIN continues when the kernel reports the connection writable
-					c.setFail("write-never-woken", fmt.Sprintf("%s: the kernel reported the connection writable after EAGAIN, the writer is still asleep 3 s later (%d of %d bytes written)", f[0], len(sc.wout), len(all)))
+					c.setFail("write-never-woken", fmt.Sprintf("%s: the kernel reported the connection writable after EAGAIN, the writer is still asleep %v later (%d of %d bytes written)", f[0], patience, len(sc.wout), len(all)))
 					atomic.StoreUint32(&conn.isClose, 1)
 					asyncNotify(conn.onWriteReadyCh)
 					err = <-fin
